@@ -39,7 +39,9 @@ def check(model, rep):
         raise AnalysisError('SPIKinSpace: leg loop not recognised')
     lp = loops[0]
     i = lp.target.id
-    rep.ob('R09.1', k, 'for %s in range(6)' % i, src(lp.iter).replace(' ', '') == 'range(6)', 'leg loop ranges over %s' % src(lp.iter), line=lp.lineno)
+    from ..engine.inline import norm_text as _nt
+    it_txt = _nt(Inliner(k).expand(lp.iter))          # a named leg count (num_legs = 6) is the constant it stands for
+    rep.ob('R09.1', k, 'for %s in range(6)' % i, it_txt in ('range(6)', 'range(0,6)'), 'leg loop ranges over %s' % it_txt, line=lp.lineno)
     from ..engine import tv as _tv
     ok, why = _tv.matches_spec(model, FHP, 'SPIKinSpace', '''
         def SPIKinSpace(bottom_T, top_T, bottom_local, top_local, bottom_space, top_space):
